@@ -461,6 +461,10 @@ macro_rules! fq12_de {
         }
     };
 }
+// truncation exactly at a coefficient boundary (a reader that stops silently at the shorter side would accept these)
+fq12_de!(fq12_de_0, 0);
+fq12_de!(fq12_de_48, 48);
+fq12_de!(fq12_de_528, 528);
 fq12_de!(fq12_de_575, 575);
 fq12_de!(fq12_de_576, 576);
 fq12_de!(fq12_de_577, 577);
